@@ -149,13 +149,15 @@ def eval_header_via(lines, route, after=None, before=0):
             "nontrivial": bool(res["Silent"].get("header", {}).get("errors"))}
 
 
-def eval_header_validate(lines):
-    """header.validate(stringency) on a header parsed (Silent) from the lines (implementation only)."""
+def eval_header_validate(lines, created="Silent"):
+    """header.validate(stringency) on a header parsed (`created`: Silent or Lenient) from the lines (implementation only):
+    the stringency given to validate() is the one that counts, whatever the header was created with."""
     from maflib.header import MafHeader
     res = {}
     for mname, mode in _modes().items():
         try:
-            h = MafHeader.from_lines(list(lines), validation_stringency=impl.MODES["Silent"])
+            with impl.LogCapture():
+                h = MafHeader.from_lines(list(lines), validation_stringency=impl.MODES[created])
         except Exception as e:  # noqa
             return {"req": None, "res": {}, "failures": [], "nontrivial": False, "skipped": exc_name(e)}
         with impl.LogCapture() as lc:
@@ -166,7 +168,7 @@ def eval_header_validate(lines):
                 res[mname] = {"exc": exc_name(e), "errors": impl.errs_json(h.validation_errors)}
         res[mname]["logs"] = lc.parsed()
     fails = []
-    check_entry(fails, "header validation", {"entry": "header-validate", "lines": lines}, res,
+    check_entry(fails, "header validation", {"entry": "header-validate", "lines": lines, "created": created}, res,
                 lambda r: r.get("errors") if "exc" not in r or not r["exc"].startswith("MafFormat") else [],
                 lambda r: r.get("value"))
     return {"req": None, "res": res, "failures": fails, "nontrivial": bool(res["Silent"].get("errors"))}
@@ -177,14 +179,16 @@ def _modes():
     return {"Strict": VS.Strict, "Lenient": VS.Lenient, "Silent": VS.Silent}
 
 
-def eval_validate(ann, line):
-    """record.validate(stringency) on a record parsed (Silent) from the line (implementation only)."""
+def eval_validate(ann, line, created="Silent"):
+    """record.validate(stringency) on a record parsed (`created`: Silent or Lenient) from the line (implementation only):
+    the stringency given to validate() is the one that counts, whatever the record was created with."""
     from maflib.record import MafRecord
     from maflib.validation import ValidationStringency as VS
     sch = impl.scheme_by_annotation(ann)
     res = {}
     for mname, mode in _modes().items():
-        rec = MafRecord.from_line(line, scheme=sch, validation_stringency=VS.Silent)
+        with impl.LogCapture():
+            rec = MafRecord.from_line(line, scheme=sch, validation_stringency=impl.MODES[created])
         with impl.LogCapture() as lc:
             try:
                 errs = rec.validate(validation_stringency=mode, scheme=sch)
@@ -193,7 +197,7 @@ def eval_validate(ann, line):
                 res[mname] = {"exc": exc_name(e)}
         res[mname]["logs"] = lc.parsed()
     fails = []
-    check_entry(fails, "record validation", {"entry": "validate", "scheme": ann, "line": line}, res,
+    check_entry(fails, "record validation", {"entry": "validate", "scheme": ann, "line": line, "created": created}, res,
                 lambda r: r.get("errors") if "exc" not in r or not r["exc"].startswith("MafFormat") else [],
                 lambda r: r.get("value"))
     return {"req": None, "res": res, "failures": fails, "nontrivial": bool(res["Silent"].get("errors"))}
@@ -368,7 +372,7 @@ def entry_point_routes(ctx, out):
         if len(via_reqs) < ctx.scale(120, 800):
             via_reqs.append(e["req"])
             via_answers.append(e["res"])
-        e = eval_header_validate(lines)
+        e = eval_header_validate(lines, created=rng.choice(["Silent", "Lenient"]))
         out.evaluations += 3
         out.failures += e["failures"]
         out.distribution["header-route:validate"] += 1
@@ -390,7 +394,7 @@ def validation_and_writer(ctx, out, rng):
     for ann in ["gdc-1.0.0", "gdc-1.0.0-public"]:
         for line in colcases.line_cases(ann, rng, ctx.scale(40, 300)):
             out.evaluations += 3
-            out.failures += eval_validate(ann, line)["failures"]
+            out.failures += eval_validate(ann, line, created=rng.choice(["Silent", "Lenient"]))["failures"]
             out.evaluations += 3
             out.failures += eval_write(ann, line)["failures"]
 
@@ -437,7 +441,7 @@ def replay_case(ctx, failure):
         what = "MafHeader.from_line_reader(LineReader(text handle)) over %s%s" % (
             _short(f["lines"], 200), "" if f.get("after") is None else " followed by the line %r" % f["after"])
     elif entry == "header-validate" and "lines" in f:
-        e = eval_header_validate(f["lines"])
+        e = eval_header_validate(f["lines"], f.get("created", "Silent"))
         if e.get("skipped"):
             return None
         what = "MafHeader.from_lines(%s, Silent).validate(stringency)" % _short(f["lines"], 200)
@@ -470,7 +474,7 @@ def replay_case(ctx, failure):
         if impl.scheme_by_annotation(f["scheme"]) is None:
             return None
         if entry == "validate":
-            e = eval_validate(f["scheme"], f["line"])
+            e = eval_validate(f["scheme"], f["line"], f.get("created", "Silent"))
             what = "record.validate(stringency, scheme=%s)" % f["scheme"]
         else:
             channel = f.get("channel", "handle")
